@@ -341,6 +341,15 @@ func (g *G) orderStmt() []Stmt {
 			m.Vals = append(m.Vals, g.intOrd(d))
 		}
 		return []Stmt{&ExprStmt{X: &Call{Fn: "rd", Args: []Expr{&StrLit{V: "map"}, m}}}}
+	case r < 18 && g.R.Intn(3) == 0:
+		// v, ok = m[k]: the operands of the index expression are evaluated once, found or not
+		g.feat("stmt-map-item-assign")
+		key := []string{"k1", "zz"}[g.R.Intn(2)]
+		var cont Expr = &Call{Fn: "pv", Args: []Expr{&IntLit{V: g.probeID()}, &MapLit{Keys: []Expr{&StrLit{V: "k1"}}, Vals: []Expr{&IntLit{V: 1}}}}}
+		if g.R.Intn(2) == 0 {
+			cont = &Index{X: &ListLit{Elems: []Expr{&MapLit{Keys: []Expr{&StrLit{V: "k1"}}, Vals: []Expr{&NilLit{}}}}}, I: &Call{Fn: "pv", Args: []Expr{&IntLit{V: g.probeID()}, &IntLit{V: 0}}}}
+		}
+		return []Stmt{&MapItemAssign{V: "mv1", Ok: "mok1", X: &Index{X: cont, I: &Call{Fn: "pv", Args: []Expr{&IntLit{V: g.probeID()}, &StrLit{V: key}}}}}}
 	case r < 18:
 		g.feat("stmt-switch")
 		s := &Switch{X: g.intOrd(d)}
@@ -361,7 +370,7 @@ func (g *G) orderStmt() []Stmt {
 		g.feat("stmt-op-assign-index")
 		// the documented exception: x op= e evaluates the operands of x twice
 		return []Stmt{&ExprStmt{X: &OpAssign{Target: &Index{X: &Name{N: "l"}, I: &Call{Fn: "pv", Args: []Expr{&IntLit{V: g.probeID()}, &IntLit{V: int64(g.R.Intn(3))}}}},
-			Op: []string{"+", "-", "*"}[g.R.Intn(3)], R: g.intOrd(d)}},
+			Op: []string{"+", "-", "*", "|", "&"}[g.R.Intn(5)], R: g.intOrd(d)}},
 			&ExprStmt{X: &Call{Fn: "rd", Args: []Expr{&StrLit{V: "l"}, &Name{N: "l"}}}}}
 	default:
 		g.feat("stmt-if-cond")
